@@ -38,7 +38,7 @@ struct Format : Profile {
     std::vector<std::string> required_probes() const override
     {
         return {"image-at-close", "image-at-sync", "linked-element", "linked-multi-table", "external-element", "compressed-element", "chunked-element",
-                "datainfo-linked", "datainfo-short-array", "vdata-record-checked", "vgroup-record-checked", "alias", "dd-blocks>1", "sd-datainfo", "gr-datainfo", "sd-values-checked", "gr-values-checked",
+                "datainfo-linked", "datainfo-short-array", "vdata-record-checked", "vgroup-record-checked", "alias", "dd-blocks>1", "sd-datainfo", "gr-datainfo", "sd-values-checked", "gr-values-checked", "sd-attr-datainfo",
                 "an-datainfo"};
     }
 
@@ -364,6 +364,7 @@ struct Format : Profile {
         spec::Reader &rd = im.rd;
         // variable Vgroups (class Var0.0) name the data element 702/ref of a dataset
         std::map<std::string, uint16_t> sd_data, gr_data;
+        std::map<std::string, std::map<std::string, uint16_t>> sd_attr; // variable name -> attribute name -> ref of its Vdata
         for (auto &x : rd.dds) {
             if (x.base() != spec::T_VG || !rd.has_data(x))
                 continue;
@@ -374,6 +375,13 @@ struct Format : Profile {
             for (auto &m : g.members) {
                 if (g.cls == "Var0.0" && m.first == spec::T_SD)
                     sd_data[g.name] = m.second;
+                if (g.cls == "Var0.0" && m.first == spec::T_VH) {
+                    const spec::DD *vh = rd.find(spec::T_VH, m.second);
+                    spec::Vdata     v;
+                    std::string     w2;
+                    if (vh && rd.has_data(*vh) && rd.parse_vh(*vh, v, w2) && v.cls == "Attr0.0")
+                        sd_attr[g.name][v.name] = m.second;
+                }
                 if (g.cls == "RI0.0" && m.first == spec::T_RI)
                     gr_data[g.name] = m.second;
             }
@@ -405,6 +413,22 @@ struct Format : Profile {
                             ctx.probe("sd-values-checked");
                         }
                     }
+                }
+                for (int32 a = 0; a < nat; a++) {
+                    char  an[H4_MAX_NC_NAME + 1] = "";
+                    int32 ant = 0, cnt = 0, ao = -7, al = -7;
+                    if (SDattrinfo(id, a, an, &ant, &cnt) == FAIL || SDgetattdatainfo(id, a, &ao, &al) == FAIL)
+                        continue;
+                    auto va = sd_attr.find(nm);
+                    if (va == sd_attr.end() || !va->second.count(an))
+                        continue;
+                    const spec::DD *ad = rd.find(spec::T_VS, va->second[an]);
+                    ctx.st.checks++;
+                    if (!ad || ad->special() || ao != ad->off || al != ad->len)
+                        ctx.fail("datainfo-mismatch", "datainfo-mismatch:location:SDgetattdatainfo",
+                                 strf("SDgetattdatainfo(dataset %s, attribute %s) reports offset %d length %d; the attribute's Vdata data on disk is at offset %d length %d", nm, an, (int)ao, (int)al,
+                                      ad ? ad->off : -1, ad ? ad->len : -1));
+                    ctx.probe("sd-attr-datainfo");
                 }
                 if (x && x->special() && rd.u16(x->off) == spec::SP_CHUNKED) {
                     // per chunk: the coordinates come from the chunk table on disk
